@@ -308,6 +308,7 @@ class Interp:
         # remove overlapping cells
         for k in [k for k in o.cells if k[0] < off + size and off < k[0] + k[1]]:
             if k == (off, size): continue
+            if k[0] >= off and k[0] + k[1] <= off + size: del o.cells[k]; continue       # completely overwritten
             self.split_cell(o, k)
         for k in [k for k in o.cells if k[0] < off + size and off < k[0] + k[1] and k != (off, size)]:
             del o.cells[k]
@@ -350,6 +351,14 @@ class Interp:
                     if len(tiles) == 2:
                         lo_c, hi_c = o.cells[tiles[0]], o.cells[tiles[1]]; kbits = 8 * tiles[0][1]
                         c.parts = (self.zext(hi_c, 8 * tiles[1][1], size * 8) if isinstance(hi_c, Sym) else hi_c, self.zext(lo_c, kbits, size * 8) if isinstance(lo_c, Sym) else lo_c, kbits)
+        if c is None and self.mode == 'INT':
+            # part of a wider cell whose value is known to fit into its low bytes (e.g. a zero-extended 32-bit value kept as one 64-bit cell)
+            for k in o.cells:
+                if k[0] <= off and off + size <= k[0] + k[1] and k[1] > size and isinstance(o.cells[k], Sym):
+                    v = o.cells[k]; lo_bytes = off - k[0]
+                    if lo_bytes == 0 and v.hi < (1 << (8 * size)): c = Sym(v.t, size * 8, v.lo, v.hi); c.s, c.slo, c.shi = None, None, None
+                    elif lo_bytes > 0 and v.hi < (1 << (8 * lo_bytes)): c = 0
+                    break
         if c is None:
             # assemble from bytes
             bs = []
